@@ -29,3 +29,17 @@ Proof.
     assert (Et : t == 0) by (unfold t; rewrite Ex; field; exact Hnz).
     rewrite Et. ring.
 Qed.
+
+(* hence on the closed segment the value never leaves the interval spanned by the two neighbouring y (no overshoot) *)
+Lemma get_value_segment_bounded l1 lx ly hx hy l2 x :
+  xsorted (l1 ++ (lx, ly) :: (hx, hy) :: l2) -> lx <= x -> x <= hx ->
+  Qmin ly hy <= get_value (l1 ++ (lx, ly) :: (hx, hy) :: l2) x /\ get_value (l1 ++ (lx, ly) :: (hx, hy) :: l2) x <= Qmax ly hy.
+Proof.
+  intros Hs Hl Hh.
+  assert (Hd : lx < hx).
+  { destruct (xsorted_split _ _ _ Hs) as [_ H2]. inversion H2 as [|? ? Hq _]; subst. exact Hq. }
+  pose proof (get_value_segment_closed _ _ _ _ _ _ _ Hs Hl Hh) as E. cbn zeta in E. rewrite E.
+  apply convex_between.
+  - apply Qle_shift_div_l; lra.
+  - apply Qle_shift_div_r; lra.
+Qed.
